@@ -117,7 +117,7 @@ CHECKS.update({
  "C02": dict(bounded_only("", "DESIGN.md §5 C02"),
         text="Lemmas about the real line patterns are proved for all lines by SMT (dumped 'Key: first' / 'Key:' lines match _single / _multi "
              "and the groups capture exactly key and first line; continuation lines never start a field and are kept; encoded field lines "
-             "are never armor, separator or initial-blank lines). The parser loop, the six input forms, armor stripping, comments and "
+             "are never armor, separator or initial-blank lines), and split_gpg_and_payload is verified from its AST to pass exactly the given lines on as payload whenever none of them matches the armor or separator pattern. The field-collecting loop, the input forms, armor stripping, comments and "
              "iter_paragraphs are decided by a bounded stand-in: generated paragraphs and multi-paragraph documents are dumped and "
              "re-parsed in six input forms x {plain, clearsigned} x {comments interleaved or not}.",
         technique="regex-to-SMT match and capture lemmas on the real patterns + bounded stand-in (generated documents)"),
@@ -151,8 +151,15 @@ CHECKS.update({
              "move). The element and token classes of _deb822_repro that use them are decided by a bounded stand-in: generated whitespace- and comma-separated list fields (layouts, line breaks, comment lines, trailing separators, values starting with '#') x histories of append / remove / replace / reference edits against an independent split of the field text.",
         technique="contract-based deductive verification of the underlying containers (heap as arrays; SMT) + bounded stand-in "
                   "(reference-model comparison over generated documents and histories)"),
- "C12": bounded_only("for every class with structured fields x subsets of those fields x record lists, the dump must be exactly the documented "
-        "text (size column aligned to 16 / longest present) and re-parse to the same records;", "DESIGN.md §5 C12"),
+ "C12": dict(bounded_only("", "DESIGN.md §5 C12"),
+        text="Proved for all lines by SMT on the real patterns of split_gpg_and_payload: a record line (a continuation line of the "
+             "dumped field) is never taken for a PGP armor line or a paragraph separator, and split_gpg_and_payload (verified from its "
+             "AST) passes exactly the given lines on as payload whenever none matches those patterns. Record <-> line conversion, sub-field names, "
+             "size-column alignment and absent optional fields are decided by a bounded stand-in: for every class with structured "
+             "fields x subsets of those fields x record lists (incl. token triples that look like armor lines, a second dump after a "
+             "record was replaced, another Release object configured the other way), the dump must be exactly the documented text and "
+             "re-parse to the same records.",
+        technique="regex-to-SMT lemmas on the real patterns + bounded stand-in (reference-model comparison over generated records)"),
  "C13": dict(bounded_only("", "DESIGN.md §5 C13"),
         text="Proved for all formatted atoms by SMT on the real __dep_RE: every atom that PkgRelation.str can write matches the pattern "
              "(no 'cannot parse' fallback) and each of the six named groups captures exactly the part that was written, absent when it "
